@@ -14,6 +14,11 @@ CLAIMED = {
   technique="deterministic simulation: the tree's compiler and interpreter run generated effectful stream terms against a logged, fault-injecting input stream and a simulated consumer that cancels after exactly k outputs; the recorded effect history is checked for containment in the prefix of a definitional lazy reference trace (refinement), with crash/hang isolation per case",
   text="Seeded generation of stream terms over every stream combinator the statement names (comma, pipe, bindings, if, //, try/catch, ?, label/break, first, limit, skip, nth, isempty, any/all, foreach/reduce over finite and endless sources incl. inputs, array collection, recursive definitions, repeat, recurse, while, until, zero-step range) with observable effects in stream positions (probe markers, bombs, errors, input consumption, endless probed loops). Each term is compiled and run by the tree with two extra natives, on an input stream that ends, fails or is endless; the consumer pulls exactly k outputs for every k up to min(#outputs, 10) and then drops the stream. Oracle: effects logged when output k is delivered are contained in those the definitional left-to-right trace (an independent lazy evaluator) orders before output k; no bomb reached, bounded work per output (fuel; a worker process that overflows its stack, exhausts memory or hangs is a violation with the case as replay); dropping performs no effect. History-based search over (term, cut, input-fault) - evidence, not proof. Output-value disagreements are counted as inconclusive (C01 is not claimed).",
   note="Trusted: the lazy reference evaluator (model/lazy.rs, ~600 lines) and the probe natives. Effects are never placed in index/key positions (evaluation order there is C01's subject)."),
+ "C05": dict(
+  level="exploration", design="§3 C05", engine="simlib+simos",
+  technique="deterministic simulation with fault injection: the tree's readers, parsers, from* filters and writers driven through seeded fault-injecting Read/BufRead/Write seams (chunking, EINTR, hard errors, short writes, flush failures) on documents with injected storage damage (truncation, bit flips, zeroed/duplicated/swapped blocks), each case isolated in a worker process; plus the real binary under errno injection at the system-call boundary",
+  text="RESTRICTED SCOPE - the stream-facing surface of the statement only: documents of every supported format met as faulty byte streams, writers meeting faulty sinks, and the command line under injected I/O faults end in values or a reported error - no panic (catch_unwind, debug assertions and overflow checks on), no crash or hang of the isolated worker process, a bounded number of pulls up to the end or first error, harmless polling after the end, plain bytes on a benign sink and the error on a failing one; the CLI under an injected errno never exits 101, dies of a signal or hangs. NOT decided here: arbitrary filter text and arbitrary argument values to built-in filters - that is a search over inputs with no fault, schedule or history in it, which this technique does not decide (said so in DESIGN.md rather than relabelling a fuzzer).",
+  note="Trusted: the fault-injecting seams (simlib/io.rs), the ptrace tracer. Documents are bounded (8 KiB), so nesting depth cannot legitimately exhaust a 1 GiB stack."),
  "C06": dict(
   level="exploration", design="§3 C06", engine="simos",
   technique="deterministic simulation: the real jaq binary in a simulated world with honeypot files, complete system-call history checked against an access policy; the set of filters is discovered from the tree at run time; injected faults make the time-zone database unreadable",
@@ -48,7 +53,6 @@ NA = {
 }
 
 PENDING = {
- "C05": "claimed by DESIGN.md for the stream-facing surface only; check not yet implemented in this commit",
  "C19": "claimed by DESIGN.md (shuttle schedules + static Send/Sync); check not yet implemented in this commit",
 }
 
